@@ -12,6 +12,20 @@ HELPERS = [
 ]
 
 
+# compiled code that modifies a predicate between two answers of a retract / an enumeration of it
+V_ = lambda n: ('V', n)
+MOVERS = [
+    ('mv0', [], ('conj', ('call', 'retract', [('F', 'd0', [V_('X')])]), ('conj', ('call', 'assertz', [('F', 'd0', [('F', 'f', [V_('X')])])]), 'fail')), True),
+    ('mv0', [], 'tru'),
+    ('mv2', [], ('conj', ('call', 'retract', [('F', 'd2', [V_('X')])]), ('conj', ('call', 'asserta', [('F', 'd2', [('A', 'n')])]), 'fail')), True),
+    ('mv2', [], 'tru'),
+    ('nest', [], ('conj', ('call', 'retract', [('F', 'd0', [V_('X')])]), ('conj', ('call', 'retract', [('F', 'd0', [V_('Y')])]), 'fail')), True),
+    ('nest', [], 'tru'),
+    ('rmw', [], ('conj', ('call', 'retract', [('F', 'd1', [V_('X'), V_('Y')])]), ('conj', ('call', 'retractall', [('F', 'd1', [V_('Y'), ('_',)])]), 'fail')), True),
+    ('rmw', [], 'tru'),
+]
+
+
 def v(i):
     return [Sym('v'), i]
 
@@ -49,8 +63,11 @@ def readback(names):
 
 def history(rnd, length):
     """a C07 history: returns ops"""
-    ops = [('load', 'overwrite', HELPERS)]
+    ops = [('load', 'overwrite', HELPERS + MOVERS)]
     names = [n for n in NAMES]
+    for name, arity in NAMES[:4]:
+        for _ in range(rnd.randint(0, 3)):
+            ops.append(('assert', name, 'z', [value_term(rnd) for _ in range(arity)]))
     for _ in range(length):
         name, arity = rnd.choice(names)
         r = rnd.random()
@@ -70,13 +87,17 @@ def history(rnd, length):
             ops.append(('query', how, sched, [fact_term(name, args)]))
         elif r < 0.68:
             args = [pattern_term(rnd, 2) for _ in range(arity)]
+            if arity == 2 and rnd.random() < 0.4:
+                args = [v(0), v(0)] if rnd.random() < 0.7 else [v(0), v(1)]      # non-linear / all-variable patterns
             ops.append(('query', rnd.choice(['retractall', 'ra']), ('all',), [fact_term(name, args)]))
         elif r < 0.9:
             args = [pattern_term(rnd, 2) for _ in range(arity)]
             ops.append(('query', name, rnd.choice([('all',), ('all',), ('stop', 1)]), args))
-        elif r < 0.94:
+        elif r < 0.92:
             ops.append(('clear',))
-            ops.append(('load', 'overwrite', HELPERS))
+            ops.append(('load', 'overwrite', HELPERS + MOVERS))
+        elif r < 0.985:
+            ops.append(('query', rnd.choice(['mv0', 'mv2', 'nest', 'rmw']), ('all',), []))
         else:
             ops.append(('query', name, ('all',), [v(i) for i in range(arity)]))
         ops.extend(readback(names))
@@ -94,9 +115,12 @@ def c13_term(rnd, vars_, depth=2):
         return sv(rnd.choice(vars_))
     if r < 0.6 or depth <= 0:
         return ('A', rnd.choice(['a', 'b', 'c']))
-    if r < 0.85:
+    if r < 0.8:
         return ('F', rnd.choice(['f', 'g']), [c13_term(rnd, vars_, depth - 1) for _ in range(rnd.randint(1, 2))])
-    return ('L', [c13_term(rnd, vars_, depth - 1) for _ in range(rnd.randint(1, 2))])
+    if r < 0.9:
+        return ('L', [c13_term(rnd, vars_, depth - 1) for _ in range(rnd.randint(1, 2))])
+    # open-tailed list: [a,b|T]
+    return ('P', [c13_term(rnd, vars_, depth - 1) for _ in range(rnd.randint(1, 2))], sv(rnd.choice(vars_)))
 
 
 def c13_program(rnd):
